@@ -6,7 +6,7 @@ From Coq Require Import String.
 From Coq Require Import List NArith Arith ZArith.
 From Coq.Strings Require Import Byte.
 From Model Require Import Bytes Parser FrameParser Response Handshake Conn Digest Url.
-From Proofs Require Import HandshakeFacts GenTie ShapeFacts ReadyFacts DeliveryFacts RejectFacts DigestFacts DigestRun UrlFacts ResponseFacts.
+From Proofs Require Import HandshakeFacts GenTie ShapeFacts ReadyFacts DeliveryFacts RejectFacts DigestFacts DigestRun UrlFacts ResponseFacts ReplyBlock.
 Import ListNotations.
 Open Scope N_scope.
 
@@ -283,3 +283,26 @@ Example C10_repeated_header_example :
   | None => False
   end.
 Proof. exact repeated_header_example. Qed.
+
+(* ---------- end to end ---------- *)
+(* a rendered reply of at most 16 KiB is one header block in the sense of the run-level theorems: its first CRLF CRLF is
+   its end *)
+Theorem C10_rendered_reply_is_a_block : forall r, wf_reply_dup r -> N.of_nat (List.length (render_reply r)) <= 16384 ->
+  reply_block (render_reply r).
+Proof. exact rendered_reply_is_a_block. Qed.
+Print Assumptions C10_rendered_reply_is_a_block.
+
+(* whole attempt, any application strategy, any masking keys, write faults and continuation, ANY rendering (order of the
+   headers, letter case of the names, blanks, folding) of a reply of at most 16 KiB: a Ready event implies that the reply
+   has status 101 and, as a SET of headers, an Upgrade header reading websocket and a Sec-WebSocket-Accept header reading
+   -- up to letter case, KF-D -- base64(sha1(base64(rand16) ++ GUID)) for the random bytes of THIS attempt *)
+Theorem C10_ready_only_for_a_correct_header_set : forall cf app keys wf zt ct dt0 r rest rand16,
+  c_accept cf = accept_of (make_key rand16) ->
+  wf_reply r -> N.of_nat (List.length (render_reply r)) <= 16384 ->
+  has_ready (evs (k_tr (run cf app (init keys wf zt ct) CnOk (StRead dt0 (RData (render_reply r)) :: rest)))) ->
+  rp_code r = 101 /\
+  (exists h, In h (rp_lines r) /\ key_of h = str "upgrade"%string /\ lower_s (strip (value_text h)) = str "websocket"%string) /\
+  (exists h, In h (rp_lines r) /\ key_of h = str "sec-websocket-accept"%string /\
+             lower_s (strip (value_text h)) = lower_s (b64_encode (sha1 (b64_encode rand16 ++ WS_GUID)))).
+Proof. exact ready_needs_digest_headers. Qed.
+Print Assumptions C10_ready_only_for_a_correct_header_set.
